@@ -41,7 +41,7 @@ ERRORS = {"IndexError": "indexError", "KeyError": "keyError", "JellyConformanceE
 TYPES = {"int": "Nat", "str": "String", "bool": "Bool", "None": "Unit", "int | None": "Option Nat", "str | None": "Option String",
          "jelly.RdfStreamFrame | None": "Option Frame"}
 # locals whose type is not Nat
-LOCAL_TYPES = {("LookupDecoder", "at", "value"): "Option String"}
+LOCAL_TYPES: dict = {}
 
 
 class Unsupported(Exception):
@@ -74,7 +74,14 @@ class Method:
         return f"t{self.tmp}__"
 
     def local_type(self, name: str) -> str:
-        return LOCAL_TYPES.get((self.cls, self.fn.name, name), "Nat")
+        """Type of a local, read off its assignments: a value fetched from a deque attribute is a `str | None`."""
+        if not hasattr(self, "_inferred"):
+            self._inferred = {}
+            for node in ast.walk(self.fn):
+                if isinstance(node, ast.Assign) and len(node.targets) == 1 and isinstance(node.targets[0], ast.Name) \
+                        and isinstance(node.value, ast.Subscript) and self.kind_of(node.value.value) == "deque":
+                    self._inferred[node.targets[0].id] = "Option String"
+        return self._inferred.get(name) or LOCAL_TYPES.get((self.cls, self.fn.name, name), "Nat")
 
     def field(self, attr: str, node) -> str:
         if attr not in self.fields:
